@@ -91,6 +91,11 @@ func (c *AesCipher) Decrypt(cipherTextWithIv []byte) ([]byte, error) {
 	}
 
 	// Decrypt the data
+	// gcm.Open panics on a nonce of the wrong size; the IV comes from the client.
+	if len(iv) != gcm.NonceSize() {
+		return nil, errors.New("invalid IV length")
+	}
+
 	plainText, err := gcm.Open(nil, iv, cipherText, nil)
 	if err != nil {
 		return nil, fmt.Errorf("failed to decrypt: %w", err)
